@@ -15,7 +15,7 @@ from ..cfg import cfg_of, CNode
 from ..decide import truth_table
 from ..fold import Inst, is_unknown
 from ..spec import tables as T
-from .common import (resolve_all, JWE_CONSUME, JWE_PRODUCE, JWS_CONSUME, JWS_PRODUCE, can_reach_exit, const_value, entries, impls,
+from .common import (as_less, resolve_all, JWE_CONSUME, JWE_PRODUCE, JWS_CONSUME, JWS_PRODUCE, can_reach_exit, const_value, entries, impls,
                      is_const, names_in, scope_of, succ_by_label)
 
 
@@ -518,13 +518,16 @@ def r06_4(ctx) -> None:
     ok = False
     for t in cfg.nodes:
         if t.kind == "test" and isinstance(t.ast, ast.Compare) and len(t.ast.ops) == 1:
-            l, r = norm(t.ast.left), norm(t.ast.comparators[0])
-            op = t.ast.ops[0]
             bad_lab = None
-            if l.endswith(".key_size") and r == f"{e.self_name}.key_size" and isinstance(op, ast.Lt):
-                bad_lab = "true"
-            elif l.endswith(".key_size") and r == f"{e.self_name}.key_size" and isinstance(op, ast.GtE):
-                bad_lab = "false"
+            al = as_less(t.ast)
+            if al is not None:
+                lo, opx, hi = norm(al[0]), al[1], norm(al[2])
+                mine = f"{e.self_name}.key_size"
+                # too short:  key.key_size < self.key_size  (true -> refuse);   long enough:  self.key_size <= key.key_size  (false -> refuse)
+                if opx == "<" and lo.endswith(".key_size") and lo != mine and hi == mine:
+                    bad_lab = "true"
+                elif opx == "<=" and lo == mine and hi.endswith(".key_size") and hi != mine:
+                    bad_lab = "false"
             if bad_lab and not can_reach_exit(cfg, succ_by_label(cfg, t, bad_lab)):
                 enc_calls = [cfg.node_of(s.node) for s in eng.cg.calls_in(e) if isinstance(s.node, ast.Call) and s.attr == "encrypt" and not s.callees]
                 if enc_calls and all(c is not None and cfg.dominates(t, c) for c in enc_calls):
